@@ -499,6 +499,168 @@ helper_scans(struct mmgr *mm)
         }
 }
 
+/* ---- key-preparation helpers, derived material searched by value (model-free): the helper is called with a random key
+ * and everything it wrote into the caller's output objects (round keys, key schedules, sub-keys, hash-key tables,
+ * ipad/opad states) is, 8 aligned bytes at a time, looked for in the register dump and the stack window, as is the raw
+ * key. Chunks with fewer than 6 distinct bytes are skipped (padding, constants), so a match is 64 matching
+ * high-entropy bits. The output objects themselves are static harness storage outside every searched location. */
+static uint64_t n_helper_value_scans, n_helper_chunks;
+static int
+chunk_entropic(const uint8_t *c)
+{
+        int d = 0;
+        for (int i = 0; i < 8; i++) {
+                int seen = 0;
+                for (int j = 0; j < i; j++)
+                        if (c[j] == c[i])
+                                seen = 1;
+                d += !seen;
+        }
+        return d >= 6;
+}
+static const char *
+search_chunk(const uint8_t *c, long *off)
+{
+        struct tramp_ctx *tc = &g_cm->tc;
+        const uint8_t *a;
+        if ((a = memmem(tc->out_gpr, sizeof tc->out_gpr, c, 8))) {
+                *off = a - (const uint8_t *) tc->out_gpr;
+                return "gpr";
+        }
+        if ((a = memmem(tc->vec, sizeof tc->vec, c, 8))) {
+                *off = (a - tc->vec) / 64;
+                return "vec-reg";
+        }
+        if (g_cm->stackcopy && (a = memmem(g_cm->stackcopy, TRAMP_STACK_WINDOW, c, 8))) {
+                *off = (a - g_cm->stackcopy) - TRAMP_STACK_WINDOW;
+                return "stack";
+        }
+        return NULL;
+}
+static void
+helper_value_scans(struct mmgr *mm, struct rng *r)
+{
+        IMB_MGR *m = mm->m;
+        static DECLARE_ALIGNED(uint8_t key[64], 16);
+        static DECLARE_ALIGNED(uint8_t o[3][2048], 64);
+        static const struct {
+                const char *name;
+                int order; /* 0: (key,o0,o1) 1: (o0,key) 2: (key,o0) 3: (key,o0,o1,o2) 4: hmac(hash, key_len, want) */
+                int hash, key_len, want;
+        } hl[] = {
+                { "keyexp_128", 0, 0, 16, 0 },
+                { "keyexp_192", 0, 0, 24, 0 },
+                { "keyexp_256", 0, 0, 32, 0 },
+                { "des_key_sched", 1, 0, 8, 0 },
+                { "sm4_keyexp", 0, 0, 16, 0 },
+                { "snow3g_init_key_sched", 2, 0, 16, 0 },
+                { "kasumi_init_f8_key_sched", 2, 0, 16, 0 },
+                { "kasumi_init_f9_key_sched", 2, 0, 16, 0 },
+                { "xcbc_keyexp", 3, 0, 16, 0 },
+                { "cmac_subkey_gen_128", 5, 0, 16, 0 },
+                { "cmac_subkey_gen_256", 5, 0, 32, 0 },
+                { "gcm128_pre", 2, 0, 16, 0 },
+                { "gcm192_pre", 2, 0, 24, 0 },
+                { "gcm256_pre", 2, 0, 32, 0 },
+                { "ghash_pre", 2, 0, 16, 0 },
+                { "imb_hmac_ipad_opad/sha1", 4, IMB_AUTH_HMAC_SHA_1, 40, 3 },
+                { "imb_hmac_ipad_opad/sha224", 4, IMB_AUTH_HMAC_SHA_224, 64, 3 },
+                { "imb_hmac_ipad_opad/sha256", 4, IMB_AUTH_HMAC_SHA_256, 33, 3 },
+                { "imb_hmac_ipad_opad/sha384", 4, IMB_AUTH_HMAC_SHA_384, 128, 3 },
+                { "imb_hmac_ipad_opad/sha512", 4, IMB_AUTH_HMAC_SHA_512, 64, 3 },
+                { "imb_hmac_ipad_opad/md5", 4, IMB_AUTH_MD5, 20, 3 },
+                { "imb_hmac_ipad_opad/sha256-long-key", 4, IMB_AUTH_HMAC_SHA_256, 200, 3 },
+                { "imb_hmac_ipad_opad/sha512-ipad-only", 4, IMB_AUTH_HMAC_SHA_512, 64, 1 },
+                { "imb_hmac_ipad_opad/sha1-opad-only", 4, IMB_AUTH_HMAC_SHA_1, 20, 2 },
+        };
+        static uint8_t longkey[256];
+        for (unsigned i = 0; i < ARRAY_SZ(hl); i++) {
+                void *fn = NULL;
+                const uint8_t *kp = key;
+                rng_bytes(r, key, sizeof key);
+                rng_bytes(r, longkey, sizeof longkey);
+                plain_memset(o, 0, sizeof o);
+                switch (i) {
+                case 0: fn = (void *) m->keyexp_128; break;
+                case 1: fn = (void *) m->keyexp_192; break;
+                case 2: fn = (void *) m->keyexp_256; break;
+                case 3: fn = (void *) m->des_key_sched; break;
+                case 4: fn = (void *) m->sm4_keyexp; break;
+                case 5: fn = (void *) m->snow3g_init_key_sched; break;
+                case 6: fn = (void *) m->kasumi_init_f8_key_sched; break;
+                case 7: fn = (void *) m->kasumi_init_f9_key_sched; break;
+                case 8: fn = (void *) m->xcbc_keyexp; break;
+                case 9: fn = (void *) m->cmac_subkey_gen_128; break;
+                case 10: fn = (void *) m->cmac_subkey_gen_256; break;
+                case 11: fn = (void *) m->gcm128_pre; break;
+                case 12: fn = (void *) m->gcm192_pre; break;
+                case 13: fn = (void *) m->gcm256_pre; break;
+                case 14: fn = (void *) m->ghash_pre; break;
+                default: fn = (void *) imb_hmac_ipad_opad;
+                }
+                if (!fn)
+                        continue;
+                if (hl[i].order == 5) {
+                        /* CMAC sub-keys derive from the expanded key: expand first (unobserved), then observe the sub-key call */
+                        if (hl[i].key_len == 16)
+                                IMB_AES_KEYEXP_128(m, key, o[2], o[2] + 1024);
+                        else
+                                IMB_AES_KEYEXP_256(m, key, o[2], o[2] + 1024);
+                }
+                g_cm->want_residue = 1;
+                switch (hl[i].order) {
+                case 0:
+                        mcall(hl[i].name, fn, 3, (uint64_t) key, (uint64_t) o[0], (uint64_t) o[1]);
+                        break;
+                case 1:
+                        mcall(hl[i].name, fn, 2, (uint64_t) o[0], (uint64_t) key);
+                        break;
+                case 2:
+                        mcall(hl[i].name, fn, 2, (uint64_t) key, (uint64_t) o[0]);
+                        break;
+                case 3:
+                        mcall(hl[i].name, fn, 4, (uint64_t) key, (uint64_t) o[0], (uint64_t) o[1], (uint64_t) (o[1] + 1024));
+                        break;
+                case 5:
+                        mcall(hl[i].name, fn, 3, (uint64_t) o[2], (uint64_t) o[0], (uint64_t) o[1]);
+                        break;
+                default:
+                        if (hl[i].key_len > 64)
+                                kp = longkey;
+                        mcall(hl[i].name, fn, 6, (uint64_t) m, (uint64_t) hl[i].hash, (uint64_t) kp, (uint64_t) hl[i].key_len,
+                              (uint64_t) ((hl[i].want & 1) ? o[0] : NULL), (uint64_t) ((hl[i].want & 2) ? o[1] : NULL));
+                }
+                g_cm->want_residue = 0;
+                n_helper_value_scans++;
+                /* what to look for: the raw key and every entropic chunk the helper wrote */
+                int reported = 0;
+                for (int src = 0; src < 4 && !reported; src++) {
+                        const uint8_t *base = src == 3 ? kp : o[src];
+                        const size_t n = src == 3 ? (size_t) (hl[i].key_len & ~7) : sizeof o[0];
+                        for (size_t b = 0; b + 8 <= n && !reported; b += 8) {
+                                long off = 0;
+                                if (!chunk_entropic(base + b))
+                                        continue;
+                                n_helper_chunks++;
+                                const char *where = search_chunk(base + b, &off);
+                                if (where) {
+                                        char key_[200], det[300];
+                                        snprintf(key_, sizeof key_, "C13|%s|helper|%s|DERIVED-%s|%s", variant_name(mm->variant), hl[i].name,
+                                                 src == 3 ? "raw-key" : "output", where);
+                                        snprintf(det, sizeof det,
+                                                 "8 bytes %s of the %s (offset %zu of %s) remain in %s at %ld after %s returned (random key)",
+                                                 hexs(base + b, 8), src == 3 ? "raw key" : "material the helper produced", b,
+                                                 src == 3 ? "the key" : src == 0 ? "output object 1" : src == 1 ? "output object 2" : "output object 3",
+                                                 where, off, hl[i].name);
+                                        ev_violation("C13", key_, det, NULL);
+                                        reported = 1;
+                                }
+                        }
+                }
+                cov_hit("C13", "%s|helper-values|%s", variant_name(mm->variant), hl[i].name);
+        }
+}
+
 /* ---- direct (manager-less) AEAD calls: after each call the secrets of the operation are searched by value */
 static uint64_t n_direct_value_scans;
 static void
@@ -649,6 +811,9 @@ eng_residue(void)
                         rng_seed(&dr, g_opt.seed * 977 + (uint64_t) vi * 131 + (uint64_t) g_opt.shard);
                         for (int k = 0; k < (g_opt.tier ? 40 : 6) && g_opt.from_case <= 0; k++)
                                 direct_value_scans(mm, &dr);
+                        for (int k = 0; k < (g_opt.tier ? 24 : 3) && g_opt.from_case <= 0; k++)
+                                if ((k + vi) % g_opt.nshards == g_opt.shard)
+                                        helper_value_scans(mm, &dr);
                 }
                 long per = g_opt.cases / g_nvariants + 1;
                 for (long e = 0; e < per; e++, unit++) {
@@ -771,5 +936,7 @@ eng_residue(void)
         cov_count("helper_scans", n_helper_scans);
         cov_count("derived_secret_searches", n_value_searches);
         cov_count("direct_value_scans", n_direct_value_scans);
+        cov_count("helper_value_scans", n_helper_value_scans);
+        cov_count("helper_value_chunks_searched", n_helper_chunks);
         return 0;
 }
